@@ -34,7 +34,7 @@ def demo(wt, d, k):
         return ok, out[-1500:]
     if os.path.exists(sh_f):
         shutil.copy(sh_f, os.path.join(wt, "examples", f"demo_{k}.sh"))
-        rc, out = sh(f"cargo build --offline -q 2>/dev/null; bash examples/demo_{k}.sh", wt, 600)
+        rc, out = sh(f"cargo build --offline -q 2>/dev/null; bash examples/demo_{k}.sh {wt}/target/debug/hpbf", wt, 600)
         os.remove(os.path.join(wt, "examples", f"demo_{k}.sh"))
         return rc == 0, out[-1500:]
     return None, "no demo found"
